@@ -8,6 +8,7 @@
 import Frrs.Proofs.Stanza
 import Frrs.Proofs.Replace
 import Frrs.Proofs.DataHeader
+import Frrs.Validate
 namespace Frrs.C05
 open Frrs
 set_option linter.unusedSimpArgs false
@@ -174,5 +175,19 @@ theorem rewritten_blob_reads_back (o : FOpts) (payload rest : Bytes) (h : (rewri
     parseDataHeader (dataHeader (rewriteBlob o payload).length) = some (rewriteBlob o payload).length ∧
     readExact (rewriteBlob o payload).length (rewriteBlob o payload ++ rest) = some (rewriteBlob o payload, rest) :=
   ⟨parseDataHeader_dataHeader _ h, readExact_append _ _⟩
+
+/-! ### content rules need content -/
+
+/-- **`--replace-text` is never combined with `--no-data`**: with `--no-data` no blob passes through the stream, so the rules
+    would silently rewrite nothing; the option set is refused, whatever else it holds, and the refused run writes nothing.
+    (The order of the two options on the command line cannot matter: the check is over the parsed option set. That it is
+    reached for every order is checked end to end — seeded change C05-5 moved it into the argument loop.) -/
+theorem replace_text_with_no_data_refused (o : FOpts) (rules : List (Bytes × Bytes)) (inp : Bytes) :
+    (runValidated { o with blobRules := some rules } true inp).ok = false ∧
+    (runValidated { o with blobRules := some rules } true inp).out = [] := by
+  simp [runValidated, validOptions]
+
+/-- without `--no-data` the same option set runs (not vacuous) -/
+example : validOptions { blobRules := some [(b!"a", b!"b")] } false = true := by decide +kernel
 
 end Frrs.C05
